@@ -6,8 +6,10 @@
 (*                                                                         *)
 (* A form is a record  [vals, files]:  vals is a sequence of <<name, value>>*)
 (* pairs (names may repeat), files a sequence of <<field, filename, size>>  *)
-(* with size class "empty" | "small" | "big" (big = above the in-memory     *)
-(* threshold of the parser in use, so it is spooled to a temporary file).   *)
+(* with size class "empty" | "small" | "big" | "huge": big is above the      *)
+(* 8 KiB in-memory threshold of the on-demand streaming parser, huge above  *)
+(* the 16 MiB threshold of the pre-parser; files above the threshold of the *)
+(* parser in use are spooled to temporary files.                            *)
 (*                                                                         *)
 (* Life cycle on one connection (serve loop + Request):                     *)
 (*   Arrive(k)   request k is read; with pre-parsing the form is parsed now *)
@@ -22,14 +24,24 @@ EXTENDS Integers, Sequences, FiniteSets, TLC
 CONSTANTS Forms,      \* menu of forms
           MaxReqs     \* requests per connection
 
-Modes == {"preparse", "ondemand", "untouched"}
+Modes == {"preparse", "ondemand", "ondemandlimit", "untouched"}
 \* preparse : DisablePreParseMultipartForm = false, the server parses while reading the body
 \* ondemand : the handler calls ctx.MultipartForm()
+\* ondemandlimit: the handler calls MultipartFormWithLimit with a limit one byte below the body
+\*            size: the form is parsed (and spooled), found too large, and must be removed again
 \* untouched: the handler never looks at the form
+Brokens == {"no", "truncated", "epilogue"}
+\* truncated: the body ends inside the last part (no closing boundary)
+\* epilogue : the form is complete, but Content-Length promises more bytes after the closing
+\*            boundary than ever arrive (only meaningful for fixed-length, i.e. pre-parsed, bodies)
 Streams == BOOLEAN      \* StreamRequestBody
 
-\* a temporary file exists for every "big" file once the form has been parsed
-BigFiles(f) == { i \in DOMAIN f.files : f.files[i][3] = "big" }
+\* files that are spooled to disk by the pre-parser / by the on-demand streaming parser
+HugeFiles(f) == { i \in DOMAIN f.files : f.files[i][3] = "huge" }
+BigFiles(f) == { i \in DOMAIN f.files : f.files[i][3] \in {"big", "huge"} }
+\* combinations worth distinguishing (a huge file costs 16 MiB per replay)
+Relevant(f, m, b) == /\ (HugeFiles(f) # {} => m = "preparse")
+                     /\ (b = "epilogue" => m = "preparse")
 
 VARIABLES
   stream,   \* configuration of the server for this connection
@@ -46,43 +58,47 @@ Init == /\ stream \in Streams /\ hist = <<>> /\ phase = "wait" /\ parsed = FALSE
 Cur == hist[Len(hist)]
 K == Len(hist)
 
-\* In buffered mode the whole body is in memory and parsed with a threshold equal to its size:
-\* nothing is spooled.  In streaming mode the on-demand parser spools files above 8 KiB.
-\* Pre-parsing (both modes) uses a 16 MiB threshold: "big" files are below it in the quick
-\* tier, so pre-parsing creates no temp file there either.
-Spools(mode) == stream /\ mode = "ondemand"
+\* In buffered mode the whole body is in memory and parsed on demand with a threshold equal to
+\* its size: nothing is spooled.  In streaming mode the on-demand parser spools files above
+\* 8 KiB.  Pre-parsing (both modes) spools files above 16 MiB.
+SpooledBy(mode, f) == CASE mode = "preparse" -> HugeFiles(f)
+                        [] mode \in {"ondemand", "ondemandlimit"} -> IF stream THEN BigFiles(f) ELSE {}
+                        [] OTHER -> {}
 
 Arrive(f, m, broken) ==
-  /\ phase = "wait" /\ K < MaxReqs
+  /\ phase = "wait" /\ K < MaxReqs /\ Relevant(f, m, broken)
   /\ hist' = Append(hist, [form |-> f, mode |-> m, broken |-> broken])
   /\ phase' = "arrived"
-  /\ parsed' = (m = "preparse" /\ ~broken)
-  /\ UNCHANGED <<stream, tmp, seenTmp>>
+  /\ parsed' = (m = "preparse" /\ broken = "no")
+  \* the pre-parser spools while the body is read; a failed pre-parse removes what it spooled
+  /\ tmp' = IF m = "preparse" /\ broken = "no" THEN tmp \cup { <<K + 1, i>> : i \in SpooledBy("preparse", f) } ELSE tmp
+  /\ UNCHANGED <<stream, seenTmp>>
 
 \* a malformed pre-parsed form is a read error: error response, connection closed, nothing kept
 ArriveFails ==
-  /\ phase = "arrived" /\ Cur.mode = "preparse" /\ Cur.broken
+  /\ phase = "arrived" /\ Cur.mode = "preparse" /\ Cur.broken # "no"
   /\ seenTmp' = Append(seenTmp, tmp)
   /\ phase' = "closed"
   /\ UNCHANGED <<stream, hist, parsed, tmp>>
 
+\* (seenTmp records the files of EARLIER requests; a pre-parsed request's own files exist already)
 HandlerStart ==
-  /\ phase = "arrived" /\ ~(Cur.mode = "preparse" /\ Cur.broken)
-  /\ seenTmp' = Append(seenTmp, tmp)
+  /\ phase = "arrived" /\ ~(Cur.mode = "preparse" /\ Cur.broken # "no")
+  /\ seenTmp' = Append(seenTmp, { t \in tmp : t[1] # K })
   /\ phase' = "handler"
   /\ UNCHANGED <<stream, hist, parsed, tmp>>
 
 ParseOnDemand ==
-  /\ phase = "handler" /\ Cur.mode = "ondemand" /\ ~parsed
+  /\ phase = "handler" /\ Cur.mode \in {"ondemand", "ondemandlimit"} /\ ~parsed
   /\ parsed' = TRUE
-  /\ tmp' = IF Spools("ondemand") /\ ~Cur.broken
-            THEN tmp \cup { <<K, i>> : i \in BigFiles(Cur.form) }
-            ELSE tmp          \* a failed parse removes whatever it had spooled
+  /\ tmp' = IF Cur.mode = "ondemand" /\ Cur.broken = "no"
+            THEN tmp \cup { <<K, i>> : i \in SpooledBy("ondemand", Cur.form) }
+            ELSE tmp          \* a failed or over-limit parse removes whatever it had spooled
   /\ UNCHANGED <<stream, hist, phase, seenTmp>>
 
 \* response written, Request.Reset: the request's temporary files are removed
 HandlerDone ==
-  /\ phase = "handler" /\ (Cur.mode = "ondemand" => parsed)
+  /\ phase = "handler" /\ (Cur.mode \in {"ondemand", "ondemandlimit"} => parsed)
   /\ tmp' = { t \in tmp : t[1] # K }
   /\ parsed' = FALSE
   /\ phase' = "wait"
@@ -94,7 +110,7 @@ Close ==
   /\ phase' = "closed"
   /\ UNCHANGED <<stream, hist, parsed, tmp>>
 
-Next == \/ \E f \in Forms, m \in Modes, b \in BOOLEAN : Arrive(f, m, b)
+Next == \/ \E f \in Forms, m \in Modes, b \in Brokens : Arrive(f, m, b)
         \/ ArriveFails \/ HandlerStart \/ ParseOnDemand \/ HandlerDone \/ Close
 
 Spec == Init /\ [][Next]_vars
@@ -103,7 +119,7 @@ Spec == Init /\ [][Next]_vars
 \* the connection has been closed
 TmpGone == \A i \in DOMAIN seenTmp : seenTmp[i] = {}
 \* temp files only ever belong to the request being handled
-TmpOwned == \A t \in tmp : t[1] = K /\ phase = "handler"
+TmpOwned == \A t \in tmp : t[1] = K /\ phase \in {"arrived", "handler"}
 Inv == TmpGone /\ TmpOwned
 
 Terminal == phase = "closed"
